@@ -164,6 +164,7 @@ type clientEngine struct {
 	// configuration
 	manual                                bool
 	skew                                  time.Duration
+	collNoWait                            bool
 	noConnClose                           bool
 	noRetransmit                          bool
 	hasFallback                           bool
@@ -208,23 +209,23 @@ type clientEngine struct {
 	armedReadFail       int
 	armedAgentStartFail int
 
-	phase         int
-	callers       []*verifrt.Task
-	healRounds    int
-	clockProgress int
-	clockIdle     int
-	marathon      bool
-	reentPct      int
-	reentered     int
-	nestedDo      int
-	healClock     int
-	idleRounds    int
-	lastProgress  int
-	opsDesc       []string
-	postDone      bool
-	closerSpawned bool
-	advanced      time.Duration
-	kcSeen        bool
+	phase           int
+	callers         []*verifrt.Task
+	healRounds      int
+	clockProgress   int
+	clockIdle       int
+	marathon        bool
+	reentPct        int
+	reentered       int
+	nestedDo        int
+	healClock       int
+	idleRounds      int
+	lastProgress    int
+	opsDesc         []string
+	postDone        bool
+	closerSpawned   bool
+	advanced        time.Duration
+	kcSeen          bool
 	kcDoubleRelease bool // a stale owner of an overlapped transaction took an error path after someone else completed it: it releases the pooled object a second time
 }
 
@@ -292,6 +293,7 @@ type simCollector struct {
 	task     *verifrt.Task
 	exited   bool
 	startErr error
+	noWait   bool
 }
 
 func (c *simCollector) Start(rate time.Duration, f func(now time.Time)) error {
@@ -318,6 +320,11 @@ func (c *simCollector) Start(rate time.Duration, f func(now time.Time)) error {
 func (c *simCollector) Close() error {
 	verifrt.Yield(hsCollector)
 	c.closed = true
+	if c.noWait {
+		// a user-driven collector (ticks come from the application): Close only
+		// stops future ticks, a collection in progress finishes on its own
+		return nil
+	}
 	// like the real collector: wait until the goroutine has exited
 	c.e.r.Sim.BlockUntil("collector-close", hsCollector, func() bool { return c.exited })
 	c.e.r.Sim.HBAcquire(uintptr(0xC011EC7))
@@ -799,7 +806,7 @@ func (e *clientEngine) freshID() [stun.TransactionIDSize]byte {
 // oracles on writes (C11) and on datagram processing (C12)
 
 func (e *clientEngine) onWriteBegin(tx *cTx, w *cWrite, data []byte) {
-	if e.closeOK != nil && e.closeOK.done && w.trigger != nil {
+	if e.closeOK != nil && e.closeOK.done && w.trigger != nil && !e.lateCollectorTask() {
 		e.fail(tx, "C11", "retransmit-after-close", "a retransmission of %d bytes begins after Close returned (tx %s)", len(data), txName(tx))
 	}
 	if tx == nil {
@@ -1008,7 +1015,7 @@ func (e *clientEngine) txHandler(tx *cTx) stun.Handler {
 		if tx.returned && tx.ret != nil {
 			e.fail(tx, "C10", "handler-after-start-error", "handler of %s invoked although the call returned error %v", tx.name(), tx.ret)
 		}
-		if e.closeOK != nil && e.closeOK.done {
+		if e.closeOK != nil && e.closeOK.done && !e.lateCollectorTask() {
 			e.fail(tx, "C15", "handler-after-close", "handler of %s invoked after Close returned", tx.name())
 		}
 		e.checkMessage(cp, ev, "handler of "+tx.name(), tx)
@@ -1102,13 +1109,41 @@ func (e *clientEngine) checkOutcome(tx *cTx, c *cCall) {
 	}
 }
 
+// lateCollectorTask: the caller runs in the task of a user-driven collector
+// whose Close does not wait for a collection in progress; what that collection
+// does after Client.Close returned is outside C15 (its preconditions only ask
+// that the collector's Close succeeds).
+func (e *clientEngine) lateCollectorTask() bool {
+	if !e.collNoWait || e.coll == nil || e.coll.task == nil {
+		return false
+	}
+	tk := e.r.Sim.Cur()
+	return tk != nil && tk.ID == e.coll.task.ID
+}
+
+func (e *clientEngine) fallbackReenter() {
+	if e.reentPct > 0 && e.reentered < 6 && e.viol == nil && e.r.Pct(e.reentPct, "fallback-reenters") {
+		// e.g. answering a Data indication: the fallback handler uses the client
+		e.reentered++
+		e.stats["probe_fallback_reentered_client"]++
+		if tk := e.r.Sim.Cur(); tk != nil {
+			if e.r.Pct(50, "fallback-indicate") {
+				e.startTx(tk, txIndicate, nil)
+			} else {
+				e.startTx(tk, txStart, nil)
+			}
+		}
+	}
+}
+
 func (e *clientEngine) fallback(ev stun.Event) {
+	defer e.fallbackReenter()
 	verifrt.Yield(hsHandler)
 	c := e.record(ev)
 	e.r.Logf("fallback id=%x err=%v msg=%v", ev.TransactionID[8:], ev.Error, ev.Message != nil)
 	e.fallbackCalls = append(e.fallbackCalls, c)
 	cp := &e.fallbackCalls[len(e.fallbackCalls)-1]
-	if e.closeOK != nil && e.closeOK.done {
+	if e.closeOK != nil && e.closeOK.done && !e.lateCollectorTask() {
 		e.fail(nil, "C15", "handler-after-close", "fallback handler invoked after Close returned")
 	}
 	if !c.hasMsg {
@@ -1267,9 +1302,12 @@ func (e *clientEngine) startTx3(tk *verifrt.Task, kind cTxKind, reuse *cTx, prot
 		h := e.txHandler(tx)
 		err = e.client.Do(m, func(ev stun.Event) { h(ev) })
 	case txIndicate:
-		if r.Pct(30, "do-nil") {
+		switch r.Choose(3, "indicate-via") {
+		case 1:
 			err = e.client.Do(m, nil) // documented shorthand for Indicate
-		} else {
+		case 2:
+			err = e.client.Start(m, nil) // what Indicate is a shorthand for
+		default:
 			err = e.client.Indicate(m)
 		}
 	}
@@ -1473,6 +1511,7 @@ func (e *clientEngine) Setup(r *Run) {
 	switch r.Choose(5, "clockmode") {
 	case 1, 2:
 		e.manual = true // simulated clock and collector
+		e.collNoWait = r.Pct(25, "collector-nowait")
 	case 3:
 		e.skew = time.Hour // custom clock (one hour behind the ticker's own time) over the real ticker collector
 	}
@@ -1581,7 +1620,7 @@ func (e *clientEngine) Setup(r *Run) {
 			opts = append(opts, stun.WithNoConnClose())
 		}
 		if e.manual {
-			e.coll = &simCollector{e: e}
+			e.coll = &simCollector{e: e, noWait: e.collNoWait}
 			opts = append(opts, stun.WithClock(simClock{e}), stun.WithCollector(e.coll))
 		} else if e.skew != 0 {
 			opts = append(opts, stun.WithClock(simClock{e}))
@@ -1913,12 +1952,14 @@ func (e *clientEngine) Finish() *Violation {
 			if t.kind == txDo {
 				class = "do-never-returned"
 			}
-			return &Violation{Property: "C10", Class: class, Msg: fmt.Sprintf("%s never returned (handler invocations: %d): task %s is %v at %s (label %q); Close returned: %v",
-				t.name(), len(t.calls), tk.Name, tk.State, verifrt.SiteName(tk.Site), tk.Label, e.closeOK.done)}
+			e.fail(t, "C10", class, "%s never returned (handler invocations: %d): task %s is %v at %s (label %q); Close returned: %v",
+				t.name(), len(t.calls), tk.Name, tk.State, verifrt.SiteName(tk.Site), tk.Label, e.closeOK.done)
+			return e.viol
 		}
 		if t.ret == nil && len(t.calls) == 0 {
-			return &Violation{Property: "C10", Class: "handler-never-invoked", Msg: fmt.Sprintf("%s returned nil but its handler was never invoked (writes %d, Close began: %v, clock advanced %v)",
-				t.name(), len(t.writes), e.closeBegan, e.advanced)}
+			e.fail(t, "C10", "handler-never-invoked", "%s returned nil but its handler was never invoked (writes %d, Close began: %v, clock advanced %v)",
+				t.name(), len(t.writes), e.closeBegan, e.advanced)
+			return e.viol
 		}
 	}
 	// every task has finished
@@ -1946,20 +1987,25 @@ func (e *clientEngine) MatchKnown(sig string, v *Violation) bool {
 		if !e.kcSeen {
 			return false
 		}
-		if e.r.Sim.PoolStats.DoublePut > 0 || e.kcDoubleRelease {
-			// an overlap made two goroutines release the same pooled transaction
-			// object (each believes it owns it): from here on two unrelated
-			// transactions may share one object and anything can follow
-			return true
-		}
+		corrupted := e.r.Sim.PoolStats.DoublePut > 0 || e.kcDoubleRelease
 		explained := map[string]bool{
 			"inflight-to-fallback": true, "response-not-delivered": true, "wrong-transaction": true, // the response meets an unregistered / recycled transaction
 			"handler-after-start-error": true, "start-error-after-handler": true, // the callback completes a transaction that Start rolled back
 		}
 		if e.violTx != nil && e.viol == v {
-			return e.violTx.kc && explained[v.Class]
+			if e.violTx.kc {
+				return explained[v.Class]
+			}
+			// an overlap made two goroutines release the same pooled transaction
+			// object (each believes it owns it): from then on two unrelated
+			// transactions may share one object, and a violation on such an
+			// innocent transaction is a consequence of the finding
+			return corrupted
 		}
 		if e.viol == v && e.violDatagram != nil && e.violDatagram.decodes {
+			if corrupted {
+				return true
+			}
 			if !explained[v.Class] {
 				return false
 			}
@@ -1970,6 +2016,9 @@ func (e *clientEngine) MatchKnown(sig string, v *Violation) bool {
 				return tx.kc
 			}
 			return false
+		}
+		if corrupted && e.viol == v {
+			return true
 		}
 		if strings.HasPrefix(v.Class, "race:") || strings.HasPrefix(v.Class, "panic") {
 			// races and panics have no subject transaction: attributed when they
